@@ -115,6 +115,27 @@ impl ArgW {
         if self.omit && default == Some(val) && !forced {
             return;
         }
+        // numbers in other decimal spellings the argument parser accepts: zero-padded, with a plus sign
+        let respelt: String;
+        let val = if !forced && !val.is_empty() && val.len() <= 18 && val.bytes().all(|b| b.is_ascii_digit()) {
+            match ((self.spell >> 44) >> (3 * (self.n % 6))) & 7 {
+                5 => {
+                    respelt = format!("0{}", val);
+                    respelt.as_str()
+                }
+                6 => {
+                    respelt = format!("000{}", val);
+                    respelt.as_str()
+                }
+                7 => {
+                    respelt = format!("+{}", val);
+                    respelt.as_str()
+                }
+                _ => val,
+            }
+        } else {
+            val
+        };
         match st {
             0 => self.a.extend([short.to_string(), val.to_string()]),
             1 => self.a.extend([long.to_string(), val.to_string()]),
